@@ -120,17 +120,19 @@ pub fn main(args: &[String]) -> i32 {
         let runs = runs.clone();
         let oks = oks.clone();
         let errs = errs.clone();
+        let _ = t;
         let work = work.join(format!("t{}", t));
         handles.push(std::thread::spawn(move || {
             let src = work.join("proj").join("src");
             let outd = work.join("out");
             let _ = std::fs::create_dir_all(&src);
-            let mut rng = Rng((seed + t as u64 + 1).wrapping_mul(0x2545F4914F6CDD1D) | 1);
             loop {
                 let idx = next.fetch_add(1, Ordering::SeqCst);
                 if idx >= files.len() {
                     break;
                 }
+                // per-file generator: the variants of a file do not depend on which thread picks it up
+                let mut rng = Rng((seed.wrapping_mul(1_000_003) + idx as u64 + 1).wrapping_mul(0x2545F4914F6CDD1D) | 1);
                 let path = &files[idx];
                 let text = match std::fs::read_to_string(path) {
                     Ok(t) => t,
